@@ -11,11 +11,13 @@
  *   MAX MIN SUM PROD on integers/floats, SUM PROD on complex (the complex product), LAND LOR LXOR (result 0/1),
  *   BAND BOR BXOR on integers/byte, MINLOC/MAXLOC on (value,index) pairs with ties giving the lowest index.
  *   Signed integer SUM/PROD whose exact result does not fit are left unconstrained (C leaves it undefined).
- * Which pairs MUST be supported comes from the MPI table (C integer, Fortran integer, floating point, logical, complex, byte,
- * multi-language, pair types). Any other pair may either be rejected (error code, nothing written) or, as an extension,
- * accepted with the natural element-wise result.
+ * Which pairs MUST be supported comes from the MPI table (C integer, floating point, logical, complex, byte, multi-language,
+ * C pair types), restricted to the datatypes MPI does not mark optional: the "if available" Fortran-sized types
+ * (MPI_INTEGERn, MPI_REALn, MPI_COMPLEXn), the C++ types (MPI_CXX_*) and the non-standard MPI_2FLOAT/2DOUBLE/2LONG may be
+ * refused. Any pair that need not be supported may either be rejected (error code or abort with the operator/type message,
+ * nothing written) or accepted -- and then it must give the natural element-wise result like any other.
  *
- * usage: ops <mode> <first_pair> <last_pair> <only_case|-1>      (case ordinals are counted inside each pair)
+ * usage: ops <mode> <first_pair> <last_pair> <only_case|-1> [counts, default 0,1,3]      (case ordinals are counted inside each pair)
  * records: P pair=.. (before each pair, rank 0), V violation (first per kind/op/type), S totals, T type table, N counters */
 #include <mpi.h>
 
@@ -44,9 +46,11 @@ static MPI_Op ophandle(int o)
   MPI_Op h[NOPS] = {MPI_MAX, MPI_MIN, MPI_SUM, MPI_PROD, MPI_LAND, MPI_LOR, MPI_LXOR, MPI_BAND, MPI_BOR, MPI_BXOR, MPI_MINLOC, MPI_MAXLOC, MPI_REPLACE, MPI_NO_OP};
   return h[o];
 }
-enum Group { G_CINT = 1, G_FINT = 2, G_FLOAT = 4, G_LOGICAL = 8, G_COMPLEX = 16, G_BYTE = 32, G_MULTI = 64, G_PAIR = 128, G_NONE = 0 };
+enum Group { G_CINT = 1, G_FINT = 2, G_FLOAT = 4, G_LOGICAL = 8, G_COMPLEX = 16, G_BYTE = 32, G_MULTI = 64, G_PAIR = 128, G_OPT = 256, G_NONE = 0 };
 static bool mpi_valid(int op, int group)
 {
+  if (group & G_OPT) /* optional in MPI ("if available", Fortran / C++ bindings): the implementation may refuse them */
+    return false;
   switch (op) {
     case MAX_:
     case MIN_:
@@ -86,6 +90,8 @@ static long only_case, case_ord = 0, cur_pair = 0;
 static long n_cases = 0, n_elems = 0, n_unconstrained = 0, n_rejected = 0, n_accepted_nomeaning = 0, n_ties = 0, n_extreme = 0;
 static std::map<std::string, long> kcount;
 static const int FR = 64;
+static const int MAXC = 8;
+static std::vector<int> counts;
 static const unsigned char CAN = 0xA5;
 
 static std::string curop, curtype;
@@ -316,26 +322,24 @@ template <class T> void run_pair(const TypeInfo& ti, int op, const std::vector<T
 {
   size_t na = alpha.size(), npairs = na * na;
   bool valid = mpi_valid(op, ti.group);
-  static const int counts[3] = {0, 1, 3};
   bool is_rma = !strcmp(mode, "rma");
   if (is_rma && op != REPLACE_ && op != NOOP_)
     return;
   MPI_Win win = MPI_WIN_NULL;
-  Framed target(3 * sizeof(T));
+  Framed target(MAXC * sizeof(T));
   if (is_rma)
-    MPI_Win_create(target.data(), 3 * sizeof(T), sizeof(T), MPI_INFO_NULL, MPI_COMM_WORLD, &win);
-  for (int ci = 0; ci < 3; ci++) {
-    int count = counts[ci];
+    MPI_Win_create(target.data(), MAXC * sizeof(T), sizeof(T), MPI_INFO_NULL, MPI_COMM_WORLD, &win);
+  for (int count : counts) {
     for (size_t p = 0; p < (count == 0 ? 1 : npairs); p++) {
       long cur = case_ord++;
       if (only_case >= 0 && cur != only_case)
         continue;
       n_cases++;
-      T a[3], b[3], exp[3];
+      T a[MAXC], b[MAXC], exp[MAXC];
       memset(a, 0, sizeof a);
       memset(b, 0, sizeof b);
       memset(exp, 0, sizeof exp);
-      Res st[3];
+      Res st[MAXC];
       for (int i = 0; i < count; i++) {
         size_t q = (p + (size_t)i * 7) % npairs;
         a[i]     = alpha[q / na];
@@ -345,7 +349,7 @@ template <class T> void run_pair(const TypeInfo& ti, int op, const std::vector<T
           n_unconstrained++;
       }
       std::string ctx = "count=" + std::to_string(count) + " a=" + (count ? fmt(a[0]) : "-") + " b=" + (count ? fmt(b[0]) : "-");
-      Framed in(3 * sizeof(T)), inout(3 * sizeof(T)), res(3 * sizeof(T));
+      Framed in(MAXC * sizeof(T)), inout(MAXC * sizeof(T)), res(MAXC * sizeof(T));
       memset(in.data(), 0x11, in.bytes);
       memset(inout.data(), 0x22, inout.bytes);
       memset(res.data(), 0x33, res.bytes);
@@ -512,9 +516,13 @@ int main(int argc, char** argv)
   long first     = atol(argv[2]);
   long last      = atol(argv[3]);
   only_case      = atol(argv[4]);
+  for (const char* c = argc > 5 ? argv[5] : "0,1,3"; c && *c; c = strchr(c, ',') ? strchr(c, ',') + 1 : nullptr)
+    if (atoi(c) <= MAXC)
+      counts.push_back(atoi(c));
   const bool sc  = CHAR_MIN < 0;
 #define TI(n, cat, grp, msz) {#n, n, cat, grp, msz, 0, SINT}
 #define TP(n, cat, vcat, vsz) {#n, n, cat, G_PAIR, 0, vsz, vcat}
+#define TPO(n, cat, vcat, vsz) {#n, n, cat, G_PAIR | G_OPT, 0, vsz, vcat}
   std::vector<TypeInfo> types = {
       TI(MPI_CHAR, sc ? SINT : UINT, G_NONE, 1), TI(MPI_SHORT, SINT, G_CINT, 0), TI(MPI_INT, SINT, G_CINT, 0), TI(MPI_LONG, SINT, G_CINT, 0),
       TI(MPI_LONG_LONG, SINT, G_CINT, 0), TI(MPI_SIGNED_CHAR, SINT, G_CINT, 1), TI(MPI_UNSIGNED_CHAR, UINT, G_CINT, 1),
@@ -525,15 +533,15 @@ int main(int argc, char** argv)
       TI(MPI_UINT8_T, UINT, G_CINT, 1), TI(MPI_UINT16_T, UINT, G_CINT, 2), TI(MPI_UINT32_T, UINT, G_CINT, 4), TI(MPI_UINT64_T, UINT, G_CINT, 8),
       TI(MPI_BYTE, UINT, G_BYTE, 1), TI(MPI_C_FLOAT_COMPLEX, CPLX, G_COMPLEX, 0), TI(MPI_C_DOUBLE_COMPLEX, CPLX, G_COMPLEX, 0),
       TI(MPI_C_LONG_DOUBLE_COMPLEX, CPLX, G_COMPLEX, 0), TI(MPI_AINT, SINT, G_MULTI, 0), TI(MPI_OFFSET, SINT, G_MULTI, 0),
-      TI(MPI_COUNT, SINT, G_MULTI, 0), TI(MPI_REAL, FLT, G_FLOAT, 0), TI(MPI_REAL4, FLT, G_FLOAT, 4), TI(MPI_REAL8, FLT, G_FLOAT, 8),
-      TI(MPI_REAL16, FLT, G_FLOAT, 16), TI(MPI_COMPLEX8, CPLX, G_COMPLEX, 8), TI(MPI_COMPLEX16, CPLX, G_COMPLEX, 16),
-      TI(MPI_COMPLEX32, CPLX, G_COMPLEX, 32), TI(MPI_INTEGER1, SINT, G_FINT, 1), TI(MPI_INTEGER2, SINT, G_FINT, 2),
-      TI(MPI_INTEGER4, SINT, G_FINT, 4), TI(MPI_INTEGER8, SINT, G_FINT, 8), TI(MPI_INTEGER16, SINT, G_FINT, 16),
-      TI(MPI_CXX_BOOL, BOOLC, G_LOGICAL, 0), TI(MPI_CXX_FLOAT_COMPLEX, CPLX, G_COMPLEX, 0), TI(MPI_CXX_DOUBLE_COMPLEX, CPLX, G_COMPLEX, 0),
-      TI(MPI_CXX_LONG_DOUBLE_COMPLEX, CPLX, G_COMPLEX, 0),
+      TI(MPI_COUNT, SINT, G_MULTI, 0), TI(MPI_REAL, FLT, G_FLOAT, 0), TI(MPI_REAL4, FLT, G_FLOAT | G_OPT, 4), TI(MPI_REAL8, FLT, G_FLOAT | G_OPT, 8),
+      TI(MPI_REAL16, FLT, G_FLOAT | G_OPT, 16), TI(MPI_COMPLEX8, CPLX, G_COMPLEX | G_OPT, 8), TI(MPI_COMPLEX16, CPLX, G_COMPLEX | G_OPT, 16),
+      TI(MPI_COMPLEX32, CPLX, G_COMPLEX | G_OPT, 32), TI(MPI_INTEGER1, SINT, G_FINT | G_OPT, 1), TI(MPI_INTEGER2, SINT, G_FINT | G_OPT, 2),
+      TI(MPI_INTEGER4, SINT, G_FINT | G_OPT, 4), TI(MPI_INTEGER8, SINT, G_FINT | G_OPT, 8), TI(MPI_INTEGER16, SINT, G_FINT | G_OPT, 16),
+      TI(MPI_CXX_BOOL, BOOLC, G_LOGICAL | G_OPT, 0), TI(MPI_CXX_FLOAT_COMPLEX, CPLX, G_COMPLEX | G_OPT, 0), TI(MPI_CXX_DOUBLE_COMPLEX, CPLX, G_COMPLEX | G_OPT, 0),
+      TI(MPI_CXX_LONG_DOUBLE_COMPLEX, CPLX, G_COMPLEX | G_OPT, 0),
       TP(MPI_FLOAT_INT, PAIRI, FLT, 4), TP(MPI_DOUBLE_INT, PAIRI, FLT, 8), TP(MPI_LONG_INT, PAIRI, SINT, 8), TP(MPI_SHORT_INT, PAIRI, SINT, 2),
-      TP(MPI_2INT, PAIRI, SINT, 4), TP(MPI_LONG_DOUBLE_INT, PAIRI, FLT, 16), TP(MPI_2FLOAT, PAIRV, FLT, 4), TP(MPI_2DOUBLE, PAIRV, FLT, 8),
-      TP(MPI_2LONG, PAIRV, SINT, 8)};
+      TP(MPI_2INT, PAIRI, SINT, 4), TP(MPI_LONG_DOUBLE_INT, PAIRI, FLT, 16), TPO(MPI_2FLOAT, PAIRV, FLT, 4), TPO(MPI_2DOUBLE, PAIRV, FLT, 8),
+      TPO(MPI_2LONG, PAIRV, SINT, 8)};
   int nt = (int)types.size();
   for (int op = 0; op < NOPS; op++)
     for (int t = 0; t < nt; t++) {
